@@ -91,6 +91,26 @@ func TestDev(t *testing.T) {
 		if len(parts) > 2 {
 			spec.Stratum = parts[2]
 		}
+		if rf := os.Getenv("VERIF_REPLAYFILE"); rf != "" {
+			// debugging: run the tape of a replay file in-process (full log on demand)
+			raw, err := os.ReadFile(rf)
+			if err != nil {
+				t.Fatal(err)
+			}
+			var rp struct {
+				Tape     map[string][]uint32 `json:"tape"`
+				Seed     uint64              `json:"run_seed"`
+				Stratum  string              `json:"stratum"`
+				Scenario string              `json:"scenario"`
+				Prop     string              `json:"property"`
+				Tier     string              `json:"tier"`
+			}
+			if err := json.Unmarshal(raw, &rp); err != nil {
+				t.Fatal(err)
+			}
+			spec.Prop, spec.Scenario, spec.Stratum, spec.Seed, spec.Tier = rp.Prop, rp.Scenario, rp.Stratum, rp.Seed, rp.Tier
+			spec.Replay, spec.IsReplay = rp.Tape, true
+		}
 		res := RunOne(t, spec)
 		v := "ok"
 		if res.Viol != nil {
